@@ -529,6 +529,8 @@ Definition PatchExpirationMarginNs : Z := 10 * 1000000000.
 
 Definition errSamePublishTime : string := "same publishTime in both MPDs".
 Definition errTooLate : string := "patch TTL exceeded".
+(** since 1d37caa: the old MPD does not offer patches (no PatchLocation, or one without ttl): 400 *)
+Definition errNoTTL : string := "old MPD has no PatchLocation with a ttl".
 
 Fixpoint select_element (tag : string) (cs : list elem) : option elem :=
   match cs with [] => None | c :: r => if seqb (e_tag c) tag then Some c else select_element tag r end.
@@ -542,10 +544,10 @@ Definition checkPatchConditions (oldRoot newRoot : elem) : res Z :=
     if seqb newPT "" || seqb oldPT "" then Err "lacking publishTime attribute in MPD"
     else if seqb newPT oldPT then Err errSamePublishTime
     else match select_element "PatchLocation" (e_children oldRoot) with
-         | None => Err "no PatchLocation element in old MPD"
+         | None => Err errNoTTL
          | Some pl =>
            match select_attr "ttl" (e_attrs pl) with
-           | None => Err "no ttl attribute in PatchLocation"
+           | None => Err errNoTTL
            | Some ta =>
              match atoi (a_val ta) with
              | None => Err "failed to convert ttl"
@@ -584,7 +586,8 @@ Definition mpdDiff (oldRoot newRoot : elem) : res patchdoc :=
     fmt.Errorf value); a panic is turned into 500 by the Recoverer middleware of the router. *)
 Definition mpdDiff_status (oldRoot newRoot : elem) : Z :=
   match checkPatchConditions oldRoot newRoot with
-  | Err e => if seqb e errSamePublishTime then 425 else if seqb e errTooLate then 410 else 500
+  | Err e => if seqb e errSamePublishTime then 425 else if seqb e errTooLate then 410
+             else if seqb e errNoTTL then 400 else 500
   | Panic _ => 500
   | Ok _ => match mpdDiff oldRoot newRoot with Ok _ => 200 | _ => 500 end
   end.
